@@ -22,7 +22,8 @@ def declared (k : Nat × Nat) : Bool :=
   | (2, 1) | (2, 3) | (2, 5) => true                 -- ProbeC: Cmp Len Assign
   | _ => false
 
-def cfg : Cfg := { gcFirst := CelloGen.Thr.teardownGcFirst, consume := CelloGen.Exn.catchConsumes, maxDepth := CelloGen.Exn.maxDepth, scan := declared }
+def cfg : Cfg := { gcFirst := CelloGen.Thr.teardownGcFirst, consume := CelloGen.Exn.catchConsumes, maxDepth := CelloGen.Exn.maxDepth, scan := declared,
+                   foreignMark := CelloGen.Thr.threadMarkUnguarded }
 
 def parseErrno : String → Option Errno
   | "0" => some .zero | "EINVAL" => some .einval | "EDEADLK" => some .edeadlk | "EBUSY" => some .ebusy
@@ -33,15 +34,25 @@ def parsePFn : String → Option PFn
 
 def nats (ws : List String) : Option (List Nat) := ws.mapM (·.toNat?)
 
-/-- (event, op name, is-sync) -/
-def parseEv (l : String) : Option (Ev × String × Bool) :=
+/-- `gc` arguments: own serials, and `T<u>` for the stack variable that holds the Thread object `new(Thread, f)` of thread u -/
+def parseKeep (w : String) : Option Nat :=
+  if w.startsWith "T" then
+    let r := (w.drop 1).toString
+    if r.length ≥ 1 && r.length ≤ 2 then r.toNat?.bind (fun u => if u ≥ 1 && u < 65 then some (thrBase + u) else none) else none
+  else if w.length < 8 then w.toNat?.bind (fun n => if n < 512 then some n else none) else none
+
+/-- the exception programs of this engine: statements, throws of the six kinds, sequences, try/catch, calls (h_thr.c) -/
+def progText (s : String) : Bool := s.toList.all (fun c => c.isDigit || c = '(' || c = ')' || c = ' ' || c = 's' || c = 't' || c = 'q' || c = 'c' || c = 'f')
+
+/-- (events of the line, executed in order while each ends `ok`; op name; is-sync) -/
+def parseEv (l : String) : Option (List Ev × String × Bool) :=
   match Driver.words l with
   | ts :: op :: args =>
     match ts.toNat? with
     | none => none
     | some t =>
-      let loc (o : LOp) : Option (Ev × String × Bool) := some (.loc t o, op, false)
-      let syn (e : Ev) : Option (Ev × String × Bool) := some (e, op, true)
+      let loc (o : LOp) : Option (List Ev × String × Bool) := some ([.loc t o], op, false)
+      let syn (e : Ev) : Option (List Ev × String × Bool) := some ([e], op, true)
       let lt (s : String) (lim : Nat) : Option Nat := if s.length < 8 then s.toNat?.bind (fun n => if n < lim then some n else none) else none
       let okKey (k : String) : Bool := k.length < 60
       if t ≥ 65 then none else
@@ -53,7 +64,12 @@ def parseEv (l : String) : Option (Ev × String × Bool) :=
       | "newx", [k] => (lt k 512).bind fun k => loc (.new k false true)
       | "del", [u, k] => match lt u 65, lt k 512 with
         | some u, some k => loc (.del ⟨u, k⟩) | _, _ => none
-      | "gc", ks => (ks.mapM (lt · 512)).bind fun ks => loc (.collect ks)
+      | "gc", ks => (ks.mapM parseKeep).bind fun ks => loc (.collect ks)
+      | "newthr", [u] => (lt u 65).bind fun u => if u = 0 then none else
+          some ([.loc t (.new (thrBase + u) false false), .bind t u], op, false)
+      | "pubo", [k] => (lt k 512).bind fun k => loc (.pubo ⟨t, k⟩)
+      | "rdo", [u] => (lt u 65).bind fun u => syn (.rdo t u)
+      | "kf", [name] => if name.length < 60 then some ([], op, false) else none
       | "churn", [n] => (lt n 5001).bind fun n => loc (.churn n)
       | "tset", [key, u, k] => match okKey key, lt u 65, lt k 512 with
         | true, some u, some k => loc (.tset key ⟨u, k⟩) | _, _, _ => none
@@ -63,7 +79,9 @@ def parseEv (l : String) : Option (Ev × String × Bool) :=
       | "x", _ :: _ =>
         -- the program text is everything after "<tid> x "
         let rest := ((l.splitOn " x ").drop 1)
-        match Exn.parse (" x ".intercalate rest) with
+        let txt := " x ".intercalate rest
+        if !progText txt then none else
+        match Exn.parse txt with
         | some p => loc (.exn (.tryCatch p [] (.stmt 999)))
         | none => none
       | "lookup", [a, b] => match lt a 3, lt b 8 with
@@ -100,6 +118,8 @@ def main (args : List String) : IO Unit := do
   let mut nLocal := 0
   let mut nSync := 0
   let mut nBlocked := 0
+  let mut nRace := 0
+  let mut nNotIso := 0
   for l in lines do
     if Driver.isSkippable l then continue
     if l.startsWith "M " then
@@ -108,14 +128,23 @@ def main (args : List String) : IO Unit := do
     if l.startsWith "N " || l.startsWith "S " then continue
     match parseEv l with
     | none => IO.println "O bad-op"
-    | some (e, name, sync) =>
-      let (g', o) := step cfg g e
-      g := g'
-      tr := tr.push (e, o)
+    | some (es, name, sync) =>
+      -- the events of the line in order, while each ends `ok` (`newthr` = allocate, then bind); the last outcome is shown
+      let mut o : Out := .ok
+      let mut shownDone := es.isEmpty
+      for e in es do
+        if o matches .ok then
+          if raceEv cfg g e then nRace := nRace + 1
+          if !isolatedEv cfg g e then nNotIso := nNotIso + 1
+          let (g', o') := step cfg g e
+          g := g'
+          o := o'
+          tr := tr.push (e, o')
       if sync then nSync := nSync + 1 else nLocal := nLocal + 1
       if notExecuted o then nBlocked := nBlocked + 1
-      let shown := if free && sync then "sync" else o.show
-      IO.println s!"O {idx} {e.tid} {name} {shown}"
+      let shown := if shownDone then "done" else if free && sync then "sync" else o.show
+      let tid := ((Driver.words l).headD "0").toNat!
+      IO.println s!"O {idx} {tid} {name} {shown}"
       idx := idx + 1
   -- the trace predicates of the theorems, evaluated on this schedule
   let trl := tr.toList
@@ -125,4 +154,6 @@ def main (args : List String) : IO Unit := do
     if holders.length > 1 then exclOK := false
     for t in List.range (maxTid + 1) do
       if inside t m trl > 1 || inside t m trl < 0 then exclOK := false
-  IO.println s!"S events={idx} local={nLocal} sync={nSync} not-executed={nBlocked} noUB={noUB trl} exclusion={exclOK}"
+  -- races: steps at which a collection walks the thread-local table of a live thread (a data race in C);
+  -- not-isolated: steps outside the hypothesis `Isolated` of C13_noninterference
+  IO.println s!"S events={idx} local={nLocal} sync={nSync} not-executed={nBlocked} noUB={noUB trl} exclusion={exclOK} races={nRace} not-isolated={nNotIso} managed={g.wraps.length}"
